@@ -7,6 +7,7 @@ package build
 // text – and malformed arguments panic with the documented error instead of being altered.
 
 import (
+	"go/token"
 	"strings"
 	"testing"
 
@@ -28,6 +29,9 @@ func TestVerifC17XFlag(t *testing.T) {
 		}
 		pkg := strings.Join(segs, "/")
 		name := ident.Draw(t, "name")
+		if token.IsKeyword(name) { // a Go variable cannot be named by a keyword; those are rightly rejected
+			name = "X" + name
+		}
 		value := val.Draw(t, "value")
 		arg := pkg + "." + name + "=" + value
 		conf := &Config{}
